@@ -435,7 +435,42 @@ class Walker:
         self.emit("return", None, s, value=NONE, implicit=True)
       else:
         self.terminals.append((kind, val, s))
+    self._append_stores()
     return self.terminals
+
+  def _append_stores(self):
+    """`res = []; for i, x in enumerate(xs): ... res.append(v)` with exactly one append on every pass fills res[i] = v: such appends are additionally
+    reported as (synthetic) store events at the pass index, so that rules about element stores see both spellings.  The events go to the end of the
+    event list (path traces keep pointing at the original append)."""
+    extra = []
+    for li in self.loop_info.values():
+      if not isinstance(li["node"], ast.For):
+        continue
+      for vis in li.get("visits", []):
+        paths = [bp for bp in li.get("body_paths", []) if bp[4] is vis]
+        if not paths or any(bp[0] not in ("fall", "continue") for bp in paths):
+          continue
+        for v in li["modified"]:
+          pre = vis.get("pre_env", {}).get(v)
+          hv = vis["head"].env.get(v)
+          if not (isinstance(pre, Seq) and pre.kind == "list" and not pre.items) or not isinstance(hv, Poly):
+            continue
+          per_path = []
+          for bp in paths:
+            apps = [self.events[i_] for i_ in bp[2].trace[bp[3]:] if self.events[i_].kind == "mutate" and self.events[i_].data["method"] == "append"
+                    and isinstance(self.events[i_].data.get("target"), ast.Name) and self.events[i_].data["target"].id == v]
+            per_path.append(apps)
+          if any(len(a_) != 1 for a_ in per_path):
+            continue
+          seen = set()
+          for apps in per_path:
+            e = apps[0]
+            if id(e) in seen:
+              continue
+            seen.add(id(e))
+            tgt = ast.copy_location(ast.Subscript(value=ast.Name(id=v, ctx=ast.Load()), slice=ast.Constant(value=0), ctx=ast.Store()), e.node)
+            extra.append(Event("store", e.node, {"base": hv, "index": as_poly(vis["k"]), "value": e.data["args"][0], "target": tgt, "synthetic": True}, e.state, e.pathid))
+    self.events.extend(extra)
 
   # ---------------------------------------------------------------- expressions
   def ev(self, e, st):
@@ -1233,6 +1268,13 @@ class Walker:
     if is_for and self.unroll and isinstance(itv, Seq) and 0 < len(itv.items) <= 8:
       yield from self.unrolled(n, itv.items, st)
       return
+    if is_for and isinstance(itv, Seq) and not itv.items and itv.kind in ("list", "tuple"):
+      # a loop over the empty literal list does nothing (only its else clause runs)
+      if n.orelse:
+        yield from self.block(n.orelse, st)
+      else:
+        yield ("fall", None, st)
+      return
     if self.quiet:
       info = {"node": n, "modified": sorted(mod), "iter": itv}   # trial run of an enclosing loop: keep no record
     else:
@@ -1364,21 +1406,23 @@ class Walker:
       henv = visit["head"].env          # the head state proper (h itself has been advanced by the body)
       for v in mod:
         pre_v = st.env.get(v)
-        if not (isinstance(pre_v, Seq) and pre_v.kind == "list" and all(not isinstance(x_, tuple) for x_ in pre_v.items)) or v not in henv or isinstance(henv[v], (Seq, Const, tuple)):
+        empty_set = isinstance(pre_v, Poly) and pre_v.as_atom() is not None and pre_v.as_atom().kind == "set" and not pre_v.as_atom().args
+        if not (empty_set or (isinstance(pre_v, Seq) and pre_v.kind == "list" and all(not isinstance(x_, tuple) for x_ in pre_v.items))) or v not in henv or isinstance(henv[v], (Seq, Const, tuple)):
           continue
         hv = as_poly(henv[v])
         elts = []
+        grow = P("lit", "add") if empty_set else P("lit", "append")
         for s2 in ends:
           cur = s2.env.get(v)
           a = cur.as_atom() if isinstance(cur, Poly) else None
-          if a is None or a.kind != "mut" or len(a.args) != 4 or a.args[0] != hv or a.args[1] != P("lit", "append"):
+          if a is None or a.kind != "mut" or len(a.args) != 4 or a.args[0] != hv or a.args[1] != grow:
             elts = None
             break
           elts.append(a.args[2])
         if elts is None or (not elts) or any(repr(x) != repr(elts[0]) for x in elts):
           # conditional append: `for t in it: if c(t): L.append(f(t))` is the filtered comprehension [f(t) for t in it if c(t)] - when the passes
           # split into those under one condition that append once and those under its negation that leave L alone
-          filt = self._filtered_append(v, hv, ends, visit, mod, henv, k, itv, pre_v)
+          filt = self._filtered_append(v, hv, ends, visit, mod, henv, k, itv, pre_v) if not empty_set else None
           if filt is not None:
             after.env[v] = filt
           continue
@@ -1392,8 +1436,8 @@ class Walker:
           continue
         bv = Atom("bv", "b%d" % next(self.fresh))
         tail = Poly.atom(Atom("map", rebuild(elt.deep_subst(ka, Poly.atom(bv))), bv, as_poly(itv)))
-        # a literal list that is extended by the loop: [r0, r1] + [f(t) for t in it]
-        after.env[v] = tail if not pre_v.items else mk("concat", as_poly(pre_v), tail)
+        # a literal list that is extended by the loop: [r0, r1] + [f(t) for t in it]; `s = set(); for t in it: s.add(f(t))` is {f(t) for t in it}
+        after.env[v] = mk("set", tail) if empty_set else (tail if not pre_v.items else mk("concat", as_poly(pre_v), tail))
     for v, t in thyps.items():
       if v not in hyps and isinstance(after.env.get(v), Poly) and after.env[v].as_atom() is not None:
         after.facts.append(("truthy" if t else "falsy", after.env[v]))
@@ -1479,4 +1523,48 @@ def resolve_sums(w, p, depth=0):
         out = rebuild(out.deep_subst(a, pre + summed))
   if out != p:
     return resolve_sums(w, out, depth + 1)
+  return out
+
+
+def resolve_counters(w, p, depth=0):
+  """Replaces, in p, the loop-head value of a linear counter (v = c0 before the loop; every pass leaves v + d with d the same loop-invariant amount on
+  every path) by c0 + k * d, k being the 0-based pass index of that loop."""
+  if not isinstance(p, Poly) or depth > 3:
+    return p
+  out = p
+  for a in list(p.all_atoms()):
+    if a.kind != "sym":
+      continue
+    target = Poly.atom(a)
+    for li in w.loop_info.values():
+      for vis in li.get("visits", []):
+        head = vis["head"].env
+        names = [n_ for n_ in li["modified"] if isinstance(head.get(n_), Poly) and head[n_] == target]
+        if not names:
+          continue
+        nm = names[0]
+        ka = as_poly(vis["k"]).as_atom()
+        if ka == a:
+          continue
+        pre = vis["pre_env"].get(nm)
+        if isinstance(pre, Const) and isinstance(pre.v, int) and not isinstance(pre.v, bool):
+          pre = Poly.const(pre.v)
+        if not isinstance(pre, Poly):
+          continue
+        paths = [bp for bp in li["body_paths"] if bp[4] is vis]
+        if not paths or any(bp[0] not in ("fall", "continue") for bp in paths):
+          continue
+        ends = [bp[2].env.get(nm) for bp in paths]
+        if any(not isinstance(e_, Poly) for e_ in ends):
+          continue
+        ds = [e_ - target for e_ in ends]
+        if any(d_ != ds[0] for d_ in ds):
+          continue
+        d = ds[0]
+        carried = {head[v_].as_atom() for v_ in li["modified"] if isinstance(head.get(v_), Poly) and head[v_].as_atom() is not None and head[v_].as_atom().kind == "sym"}
+        if any(x_ in carried or x_ == ka for x_ in d.all_atoms()):
+          continue
+        out = rebuild(out.deep_subst(a, pre + Poly.atom(ka) * d))
+  if out != p:
+    return resolve_counters(w, out, depth + 1)
   return out
